@@ -16,6 +16,7 @@ mod c17;
 mod common;
 mod hostsim;
 mod pipeline;
+mod realos;
 mod prog;
 mod rng;
 
